@@ -41,6 +41,10 @@ type c34Case struct {
 	WErr   int    // the connection fails once this many bytes were accepted (0 = never)
 	WBuf   int    // size of the bufio.Writer the message is written to
 	Path   string // life cycle, see c34Paths
+
+	// Kind "readhist" (c34_readhist_test.go): a history of bodies read through the pooled read-side stream
+	Hist  []c34RBody `json:",omitempty"`
+	Split int        `json:",omitempty"` // readhist: the network delivers at most this many bytes per read (0: no limit)
 }
 
 var c34Paths = []string{
@@ -180,6 +184,7 @@ type c34Out struct {
 	panicked bool
 	faultAsSuccess bool // a Read error/panic happened and Write+Flush still reported success
 	readBacks      int  // how often the written message was decoded again by fasthttp's own readers
+	hist           *c34RStats
 }
 
 func (o *c34Out) add(sym, format string, a ...any) {
@@ -292,6 +297,10 @@ func c34Exec(c *c34Case) (o *c34Out) {
 func c34ExecInner(c *c34Case, o *c34Out) {
 	if c.Kind == "writer" {
 		c34ExecWriter(c, o)
+		return
+	}
+	if c.Kind == "readhist" {
+		c34ExecHist(c, o)
 		return
 	}
 	st := c34NewStream(c)
@@ -735,6 +744,9 @@ func c34ExecWriter(c *c34Case, o *c34Out) {
 // ---------------------------------------------------------------------------------------------------------------
 
 func c34Sig(sym string, c *c34Case) string {
+	if c.Kind == "readhist" {
+		return c34RSig(sym, c)
+	}
 	parts := []string{c.Kind, c.Side}
 	if c.Kind == "reader" {
 		parts = append(parts, "decl="+c.Decl)
@@ -769,6 +781,9 @@ func c34Has(o *c34Out, sym string) bool {
 // c34Shrink simplifies the failing case while the symptom persists (fewer / smaller chunks, no fault, no write error,
 // plain closer), so that the class does not depend on incidental parameters.
 func c34Shrink(c c34Case, sym string) c34Case {
+	if c.Kind == "readhist" {
+		return c34ShrinkHist(c, sym)
+	}
 	try := func(cand c34Case) bool {
 		if cand.key() == c.key() {
 			return false
@@ -902,7 +917,8 @@ func TestVerif_C34(t *testing.T) {
 		"StreamWriter bodies: every sequence of at most %d pieces (sizes as above, each followed by Flush) x {Request, Response} x {write,reset / write,release / reset / release} x the same write-error offsets. "+
 		"Oracle: after a successful Write+Flush the wire parses (own splitter cross-checked with net/http) to exactly the bytes the stream handed out, a failing Read / size mismatch is never reported as success, after a failed write "+
 		"the body bytes on the wire are a prefix of the produced bytes and do not exceed a declared fixed size; Close calls == 1 after Write returns and at the end of every path, never 2; a StreamWriter goroutine ends after reset/release. "+
-		"Non-trivial: cases with a Closer that went through an error, panic, mismatch or write-error path, or whose wire framing was decoded", maxChunks, sizes, c34Paths, maxChunks))
+		"Non-trivial: cases with a Closer that went through an error, panic, mismatch or write-error path, or whose wire framing was decoded", maxChunks, sizes, c34Paths, maxChunks)+
+		" || "+c34RRuleText(r.Thorough()))
 	r.Assume("net/http.ReadRequest/ReadResponse and the harness's own RFC 9112 splitter as independent decoders of the wire (they must agree)",
 		"'closed exactly once' is counted on Close(); CloseWithError is a separate method and only required not to replace Close",
 		"a panic raised by Read inside the compressing goroutine of WriteGzip would terminate the test process and is not enumerated (stated as not covered)",
@@ -1099,6 +1115,13 @@ func TestVerif_C34(t *testing.T) {
 			}
 		}
 		r.Eval(n)
+		cnt.Lock()
+		for k, v := range local {
+			cnt.m[k] += v
+		}
+		cnt.Unlock()
+	})
+	c34ReadHistories(r, rp, func(local map[string]int64) {
 		cnt.Lock()
 		for k, v := range local {
 			cnt.m[k] += v
